@@ -255,6 +255,44 @@ def make_tree(rng, root, serial):
         reg(os.path.join(root, "-z"))
 
 
+def make_corpus_tree(root):
+    """a fixed tree for the fixed cases that are run first on every check"""
+    os.makedirs(os.path.join(root, "hd", "sub"))
+    os.makedirs(os.path.join(root, "dd"))
+    for k, n in enumerate(["a.txt", "x.html", "de.mo", "b.1", "p.pt_BR.1", "git-x.de.1", "c.fr.3", "hd/k.html", "hd/e.txt",
+                           "hd/sub/z.txt", "hd/sub/i.png", "dd/f.txt"]):
+        with open(os.path.join(root, n), "w") as f:
+            f.write(str(900 + k))
+    os.symlink("/nonexistent/c33/abs", os.path.join(root, "dd", "dangling"))
+
+
+CORPUS = [
+    # (helper, eapi, args, shvars overrides, umask, pre_spec)
+    ("domo", "7", ["de.mo"], {"desttree": "/opt/foo"}, 0o022, []),
+    ("domo", "6", ["de.mo"], {"desttree": "/opt/foo"}, 0o022, []),
+    ("dohtml", "6", ["-r", "x.html", "hd"], {"docdesttree": ""}, 0o022, []),
+    ("dohtml", "6", ["-r", "-x", "sub", "hd"], {"docdesttree": ""}, 0o022, []),
+    ("dohtml", "6", ["x.html", "a.txt"], {"docdesttree": ""}, 0o022, []),
+    ("doman", "7", ["-i18n=fr", "b.1"], {}, 0o022, []),
+    ("doman", "7", ["p.pt_BR.1", "git-x.de.1", "c.fr.3"], {}, 0o022, []),
+    ("doman", "1", ["c.fr.3"], {}, 0o022, []),
+    ("doman", "7", ["a"], {}, 0o022, []),
+    ("doins", "7", ["-r", "dd"], {"insdesttree": "/usr/share/foo", "insoptions": "-m0644", "diroptions": "-m0755"}, 0o022, []),
+    ("dodoc", "7", ["a.txt"], {"docdesttree": ""}, 0o027, []),
+    ("dodoc", "3", ["-r", "hd"], {"docdesttree": ""}, 0o022, []),
+    ("dosym", "7", ["foo", "/var/tmp"], {}, 0o022, []),
+    ("dosym", "7", ["foo", "/usr/bin/"], {}, 0o022, []),
+    ("dosym", "8", ["-r", "/usr/lib/foo", "/usr/bin/foo"], {}, 0o022, []),
+    ("dosym", "7", ["-r", "/usr/lib/foo", "/usr/bin/foo"], {}, 0o022, []),
+    ("dosym", "7", ["foo"], {}, 0o022, []),
+    ("dohard", "3", ["/usr/bin/foo", "/usr/bin/hl"], {}, 0o022,
+     [(("usr",), "d", 0o755), (("usr", "bin"), "d", 0o755), (("usr", "bin", "foo"), "f", 0o644, 77)]),
+    ("dohard", "4", ["usr/bin/foo", "/usr/bin/hl"], {}, 0o022, []),
+    ("keepdir", "7", ["/var/lib/x"], {"diroptions": "-m0750"}, 0o022, []),
+    ("dobin", "7", ["a.txt"], {"desttree": "/usr"}, 0o022, []),
+]
+
+
 def fkind_of(p):
     if os.path.islink(p):
         return ("link", os.readlink(p), os.path.exists(p))
@@ -481,8 +519,25 @@ CLASSES = [("dohard-host-source", in_dohard_host_source), ("doman-i18n-option", 
            ("domo-desttree-guard", in_domo_desttree_guard)]
 
 
-def classes_of(case):
-    return [cid for cid, pred in CLASSES if pred(case)]
+def _is_err(res, *kinds):
+    return isinstance(res, Err) and (not kinds or res.kind in kinds)
+
+
+# what the defect looks like in the implementation's result (keeps a class from absorbing other failures)
+SIGNATURE = {
+    "dohard-host-source": lambda res: _is_err(res, "oserr") or not _is_err(res),
+    "doman-i18n-option": lambda res: _is_err(res, "internal", "argparse"),
+    "doman-lang-regex": lambda res: not _is_err(res),
+    "dosym-dir-check-host": lambda res: _is_err(res, "nolinkname", "oserr") or not _is_err(res),
+    "install-dangling-symlink": lambda res: _is_err(res, "stat"),
+    "shared-parser-defaults": lambda res: not _is_err(res),
+    "dohtml-recursive-unfiltered": lambda res: not _is_err(res),
+    "domo-desttree-guard": lambda res: not _is_err(res),
+}
+
+
+def classes_of(case, res=None):
+    return [cid for cid, pred in CLASSES if pred(case) and (res is None or SIGNATURE[cid](res))]
 
 
 # ------------------------------------------------------------------ generators
@@ -667,7 +722,7 @@ def report(chk, stream, cases, meta, a_bad, b_bad, what_b):
     """classify (A) and (B) disagreements of one stream"""
     found_property = False
     for i in b_bad:
-        cls = classes_of(meta[i]) if meta and meta[i] else []
+        cls = classes_of(meta[i], cases[i][1]) if meta and meta[i] else []
         listed = [c for c in cls if chk.known_finding(c, {"stream": stream, "input": meta[i].get("show") if meta[i] else cases[i][0],
                                                           "implementation": cases[i][1]})]
         if listed:
@@ -678,7 +733,7 @@ def report(chk, stream, cases, meta, a_bad, b_bad, what_b):
                                    "implementation": cases[i][1], "classes_not_listed": cls})
     shown = 0
     for i in a_bad:
-        cls = classes_of(meta[i]) if meta and meta[i] else []
+        cls = classes_of(meta[i], cases[i][1]) if meta and meta[i] else []
         listed = [c for c in cls if chk.known_finding(c, {"stream": stream, "input": meta[i].get("show") if meta[i] else cases[i][0],
                                                           "implementation": cases[i][1]})]
         if listed:
@@ -835,6 +890,19 @@ def main(chk: Check):
         make_tree(rng, td, t + 1)
         trees.append(td)
     hcases, hmeta = [], []
+    ctd = str(impl.scratch / "corpus_tree")
+    make_corpus_tree(ctd)
+    for h, e, a, shu, um, pre_spec in CORPUS:
+        sh = dict(desttree="/usr", insdesttree="", exedesttree="", docdesttree="", pf="pn-1.0", libdir="lib",
+                  insoptions="-m0644", exeoptions="-m0755", liboptions="-m0644", diroptions="-m0755")
+        sh.update(shu)
+        case = {"helper": h, "eapi": e, "sh": sh, "cat": "cat", "pn": "pn", "slot": "0", "umask": um, "tree_dir": ctd,
+                "pre_spec": list(pre_spec), "nonfatal": True}
+        if h in ("dosym", "dohard", "dodir", "keepdir"):
+            case["args"] = [(x, ("missing",)) for x in a]
+        else:
+            case["args"] = [(x, describe(ctd, x)) for x in a]
+        hmeta.append(case)
     weights = {"doins": 5, "dodoc": 4, "doman": 5, "dohtml": 4, "domo": 2, "dosym": 6, "dohard": 3, "dodir": 2,
                "keepdir": 3, "doexe": 2, "dobin": 2, "dosbin": 1, "dolib": 1, "dolib.so": 1, "dolib.a": 1, "doinfo": 1}
     hpool = [h for h, w in weights.items() for _ in range(w)]
